@@ -2,7 +2,7 @@
    Statements only; proofs live in C03/Proofs.v and C03/Table.v.  Model: C03/Model.v (access scripts
    transcribing psutil/_pslinux.py and psutil/__init__.py), fault model and allowed outcomes:
    C03/Spec.v, guard analysis: C03/Guard.v, the harness's concrete worlds: C03/Run.v. *)
-From PV Require Import Base.Prelude C03.Model C03.Spec C03.Guard C03.Proofs C03.Run C03.Table C03.Native C03.NativeProofs C03.History C03.Access.
+From PV Require Import Base.Prelude C03.Model C03.Spec C03.Guard C03.Proofs C03.Run C03.Table C03.Native C03.NativeProofs C03.History C03.Access C03.PyGen C03.ProofsGen Gen.C03_Tables.
 
 (* soundness of the guard for ALL worlds of the fault model: any base answers respecting [opt], any vanish index of
    the process -- whole directory or half-removed (only the entries below /proc/<pid> go, issue 2418) --, any
@@ -164,3 +164,37 @@ Theorem C03_legacy_cwd_half_removed_refuted :
   fst (run w legacy_dir_i_cwd st0) = RVal /\ gone w (snd (run w legacy_dir_i_cwd st0)) = true.
 Proof. exact legacy_cwd_half_removed_refuted. Qed.
 Print Assumptions C03_legacy_cwd_half_removed_refuted.
+
+(* ---- round 2: the exception-translation layer is TRANSLATED from the current psutil/_pslinux.py on every run
+        (coq/Gen/C03_Tables.v: wrap_exceptions.wrapper, Process._is_zombie, _raise_if_zombie, _raise_if_not_alive as
+        terms of C03/PyGen.v) and means exactly the model's scripts: for the Process object of any process in focus
+        and ANY decorated method body the translated wrapper is Model.wrapped_at (clause order, zombie probe,
+        os.path.exists probe of the stat file, which psutil error with whose pid) ... *)
+Theorem C03_gen_wrap_exceptions : forall (x : who) (st : fid) (body : prog),
+  c_wrapper gen_src x st body = Some (wrapped_at x st body).
+Proof. exact gen_wrap_exceptions_eq. Qed.
+Print Assumptions C03_gen_wrap_exceptions.
+Theorem C03_gen_raise_if_zombie : forall (x : who) (st : fid),
+  c_raise_if_zombie gen_src x st = Some (raise_if_zombie x st).
+Proof. exact gen_raise_if_zombie_eq. Qed.
+Print Assumptions C03_gen_raise_if_zombie.
+Theorem C03_gen_raise_if_not_alive : c_raise_if_not_alive gen_src = Some raise_if_not_alive.
+Proof. exact gen_raise_if_not_alive_eq. Qed.
+Print Assumptions C03_gen_raise_if_not_alive.
+(* ... and therefore runs as they do, in every world of the fault model, from every state *)
+Theorem C03_gen_wrap_exceptions_exec : forall (w : world) (x : who) (st : fid) (body : prog) (cx : xc) (s : Model.st),
+  py_exec w (c_wrapper gen_src x st body) cx s = Some (exec w (wrapped_at x st body) cx s).
+Proof. exact gen_wrap_exceptions_exec. Qed.
+Print Assumptions C03_gen_wrap_exceptions_exec.
+(* Process._readlink(path, fallback) translated: ENOENT/ESRCH of the link -> os.lstat probe of /proc/<pid>/stat
+   (only ENOENT/ESRCH of the probe mean gone, a refusal propagates), zombie check, fallback, else re-raise ... *)
+Theorem C03_gen_readlink : forall (f del : fid), c_readlink gen_src f del true = Some (readlink_fb f del).
+Proof. exact gen_readlink_eq. Qed.
+Print Assumptions C03_gen_readlink.
+(* ... and the platform methods exe() / cwd() (decorator + call with a fallback) are the scripts i_exe / i_cwd *)
+Theorem C03_gen_exe : c_method gen_src (py_exe gen_src) = Some i_exe.
+Proof. exact gen_exe_eq. Qed.
+Print Assumptions C03_gen_exe.
+Theorem C03_gen_cwd : c_method gen_src (py_cwd gen_src) = Some i_cwd.
+Proof. exact gen_cwd_eq. Qed.
+Print Assumptions C03_gen_cwd.
